@@ -67,12 +67,13 @@ pub struct Script {
     pub segs: VecDeque<Seg>,
     pub log: Arc<Mutex<Log>>,
     pub write_fail_after: Option<usize>,
+    pub write_fail_kind: u8,
 }
 
 impl Script {
     pub fn new(segs: Vec<Seg>) -> (Script, Arc<Mutex<Log>>) {
         let log = Arc::new(Mutex::new(Log::default()));
-        (Script { segs: segs.into(), log: log.clone(), write_fail_after: WRITE_FAIL_AFTER.with(|w| w.take()) }, log)
+        (Script { segs: segs.into(), log: log.clone(), write_fail_after: WRITE_FAIL_AFTER.with(|w| w.take()), write_fail_kind: WRITE_FAIL_KIND.with(|w| w.get()) }, log)
     }
 }
 
@@ -132,6 +133,15 @@ pub fn set_write_fail_after(n: Option<usize>) {
     WRITE_FAIL_AFTER.with(|w| w.set(n));
 }
 
+thread_local! {
+    /// the error kind (code as in `kind_of`) of the scripted write failure; BrokenPipe unless set
+    static WRITE_FAIL_KIND: std::cell::Cell<u8> = const { std::cell::Cell::new(5) };
+}
+
+pub fn set_write_fail_kind(k: u8) {
+    WRITE_FAIL_KIND.with(|w| w.set(k));
+}
+
 pub fn set_write_limit(n: usize) {
     WRITE_LIMIT.with(|w| w.set(n.max(1)));
 }
@@ -142,7 +152,7 @@ impl Write for Script {
         let mut log = self.log.lock().unwrap();
         if let Some(cap) = self.write_fail_after {
             if log.written.len() >= cap {
-                return Err(io::Error::new(io::ErrorKind::BrokenPipe, "scripted write failure"));
+                return Err(io::Error::new(kind_of(self.write_fail_kind), "scripted write failure"));
             }
             n = n.min(cap - log.written.len());
         }
